@@ -617,9 +617,14 @@ func UnmarshalArrayYAML(value *yaml.Node) (*GeneralizedType, error) {
 			case "!!seq":
 				array.Dimensions = &ArrayDimensions{}
 				for i := 0; i < len(v.Content); i++ {
+					dimNode := v.Content[i]
+					if dimNode.Kind == yaml.AliasNode && dimNode.Alias != nil {
+						// look at the node the alias stands for (it may be a null)
+						dimNode = dimNode.Alias
+					}
 					dim := &ArrayDimension{Comment: normalizeComment(v.Content[i].HeadComment), NodeMeta: createNodeMeta(v.Content[i])}
-					if v.Content[i].Tag != "!!null" {
-						if err := v.Content[i].DecodeWithOptions(&dim, yaml.DecodeOptions{KnownFields: true}); err != nil {
+					if dimNode.Tag != "!!null" {
+						if err := dimNode.DecodeWithOptions(&dim, yaml.DecodeOptions{KnownFields: true}); err != nil {
 							return nil, err
 						}
 					}
